@@ -52,6 +52,10 @@ pub enum FaultKind {
     AddForeign,
     /// a foreign signal inserted at this position
     InsertForeign(usize),
+    /// this many entries for a foreign signal appended (256: past a u8 count)
+    AddManyForeign(usize),
+    /// the first this many entries dropped
+    DropMany(usize),
     Dup(usize),
     Swap(usize, usize),
     SubstName(usize),
@@ -141,7 +145,9 @@ impl DutModel {
         for (fi, f) in spec.faults.iter().enumerate() {
             let base = |p: usize| spec.layout.get(p).map(|(s, _)| s.clone());
             let made = match &f.kind {
-                FaultKind::AddForeign | FaultKind::InsertForeign(_) => Some(SigSpec {
+                FaultKind::AddForeign
+                | FaultKind::InsertForeign(_)
+                | FaultKind::AddManyForeign(_) => Some(SigSpec {
                     name: format!("FOREIGN{fi}"),
                     bits: 1,
                     kind: SigKind::Out,
@@ -290,6 +296,16 @@ impl DutModel {
                     if let Some(x) = self.foreign_of(*fi) {
                         ans.insert((*p).min(n), (SigId::Foreign(x), OutVal::Num(0)));
                     }
+                }
+                FaultKind::AddManyForeign(count) => {
+                    if let Some(x) = self.foreign_of(*fi) {
+                        for _ in 0..*count {
+                            ans.push((SigId::Foreign(x), OutVal::Num(0)));
+                        }
+                    }
+                }
+                FaultKind::DropMany(count) => {
+                    ans.drain(..(*count).min(n));
                 }
                 FaultKind::Dup(p) => {
                     if *p < n {
@@ -611,6 +627,8 @@ impl FaultKind {
             FaultKind::Drop(_) => "drop",
             FaultKind::AddForeign => "add",
             FaultKind::InsertForeign(_) => "insert",
+            FaultKind::AddManyForeign(_) => "addMany",
+            FaultKind::DropMany(_) => "dropMany",
             FaultKind::Dup(_) => "dup",
             FaultKind::Swap(..) => "swap",
             FaultKind::SubstName(_) => "substName",
@@ -624,6 +642,8 @@ impl FaultKind {
         match self {
             FaultKind::Error | FaultKind::AddForeign => {}
             FaultKind::Drop(p)
+            | FaultKind::AddManyForeign(p)
+            | FaultKind::DropMany(p)
             | FaultKind::InsertForeign(p)
             | FaultKind::Dup(p)
             | FaultKind::SubstName(p)
@@ -651,6 +671,8 @@ impl FaultKind {
             "add" => FaultKind::AddForeign,
             "drop" => FaultKind::Drop(p(1)?),
             "insert" => FaultKind::InsertForeign(p(1)?),
+            "addMany" => FaultKind::AddManyForeign(p(1)?),
+            "dropMany" => FaultKind::DropMany(p(1)?),
             "dup" => FaultKind::Dup(p(1)?),
             "substName" => FaultKind::SubstName(p(1)?),
             "substBits" => FaultKind::SubstBits(p(1)?),
